@@ -56,6 +56,29 @@ def p_float_time_two_phase(cb_cls):
     return {"boot": cb.as_execution_phase("main"), "main": cb2.as_execution_phase("main")}, "boot"
 
 
+def p_constants(cb_cls):
+    """special floating-point constants, NumPy-typed constants and a NumPy object array of expressions in
+    right-hand sides (how the generated code spells them)"""
+    import numpy as np
+    from pymbolic import var
+    from pymbolic.primitives import Max, Min
+    y, dt = var("<state>y"), var("<dt>")
+    tbl = np.empty(3, dtype=object)
+    tbl[0], tbl[1], tbl[2] = dt, 2 * dt + y, np.float64(0.5) * y
+    with cb_cls("main") as cb:
+        cb.assign("big", Min((y, float("inf"))))
+        cb.assign("small", Max((y, float("-inf"))))
+        cb.assign("nn", float("nan") + y)
+        cb.assign("k", tbl)
+        cb.assign("h", np.float32(0.1) * y + np.int64(3) + np.float64(-2.5) ** 2)
+        cb.assign("<state>y", "big + small + h + <dt>")
+        cb.assign("<t>", "<t> + <dt>")
+        cb.yield_state("k", "k", parse("<t>"), "final")
+        cb.yield_state("nn", "nn", parse("<t>"), "final")
+        cb.yield_state("<state>y", "y", parse("<t>"), "final")
+    return {"main": cb.as_execution_phase("main")}, "main"
+
+
 def builtin_program(form):
     """every built-in once; `form` = 'pos' (positional) or 'kw' (by keyword)"""
     def call(f, names, args):
@@ -103,6 +126,7 @@ def extras():
         out.append(("float_time_two_phase dt=%r t_end=%r" % (dt, t_end), p_float_time_two_phase, {"y": 2.0}, 0.0, dt,
                     {"t_end": t_end}))
     out.append(("float_time max_steps", p_float_time, {"y": 1.0}, 0.5, 0.1, {"max_steps": 7}))
+    out.append(("constants", p_constants, {"y": 1.25}, 0.0, 0.5, {"max_steps": 3}))
     for form in ("pos", "kw"):
         init = {"b": np.array([1.5, -2.0, 0.25]), "m": np.array([2.0, 1.0, 0.5, 3.0]), "v": np.array([1.0, -1.0])}
         out.append(("builtins %s" % form, builtin_program(form), init, 0, 1, {"max_steps": 2}))
